@@ -400,6 +400,10 @@ static void run_c19(long cases) {
                 lit = buf; cls = "v6-full";
                 if (r.chance(1, 2)) { lit = rnd_case(r, lit); cls = "v6-full-case"; }
             }
+            else if (r.chance(1, 4)) {   // six zero-padded groups and a dotted-quad tail: up to 45 characters, the longest form an IPv6 literal has
+                char buf[64]; snprintf(buf, sizeof buf, "%04x:%04x:%04x:%04x:%04x:%04x:%u.%u.%u.%u", (b[0] << 8) | b[1], (b[2] << 8) | b[3], (b[4] << 8) | b[5], (b[6] << 8) | b[7], (b[8] << 8) | b[9], (b[10] << 8) | b[11], b[12], b[13], b[14], b[15]);
+                lit = buf; cls = "v6-padded-with-v4-tail";
+            }
             if (r.chance(1, 2)) c19_expect_ok("[" + lit + "]", canon, 80, AF_INET6, cls + "-noport");
             else { int p = r.range(0, 65535); c19_expect_ok("[" + lit + "]:" + std::to_string(p), canon, p, AF_INET6, cls + "-port"); }
         } else if (kind == 4) {  // aliases
